@@ -1,1 +1,66 @@
-fn main() { println!("stub"); }
+//! SQL-level semantic drivers (DESIGN.md §7.1).  `vsem exec` is the generic executor used by C01/C02…
+use serde_json::{Value, json};
+use vcommon::sqlexec::{ExecOpts, run_sql_case};
+use vcommon::util;
+
+fn parse_opts() -> ExecOpts {
+    let mut o = ExecOpts::default();
+    let a: Vec<String> = std::env::args().collect();
+    let mut i = 0;
+    while i < a.len() {
+        match a[i].as_str() {
+            "--partitions" => o.partitions = a[i + 1].parse().unwrap(),
+            "--batch-rows" => o.batch_rows = a[i + 1].parse().unwrap(),
+            "--utf8view" => o.utf8view = true,
+            "--set" => {
+                let (k, v) = a[i + 1].split_once('=').unwrap();
+                o.settings.push((k.to_string(), v.to_string()));
+            }
+            _ => {}
+        }
+        i += 1;
+    }
+    o
+}
+
+fn exec_main() {
+    let inp = util::arg("--in").expect("--in");
+    let out = util::arg("--out").expect("--out");
+    let opts = parse_opts();
+    let cases = util::read_ndjson(&inp);
+    let rt = tokio::runtime::Builder::new_multi_thread().worker_threads(4).enable_all().build().unwrap();
+    let mut results: Vec<Value> = vec![];
+    let (mut ok, mut err, mut panics) = (0, 0, 0);
+    for c in &cases {
+        let c2 = c.clone();
+        let o2 = opts.clone();
+        let r = rt.block_on(async move { tokio::spawn(async move { run_sql_case(&c2, &o2).await }).await });
+        match r {
+            Ok(Ok(rows)) => {
+                ok += 1;
+                results.push(json!({"id": c["id"], "rows": rows}));
+            }
+            Ok(Err(e)) => {
+                err += 1;
+                results.push(json!({"id": c["id"], "err": e}));
+            }
+            Err(e) => {
+                panics += 1;
+                results.push(json!({"id": c["id"], "err": format!("PANIC: {e}"), "panic": true}));
+            }
+        }
+    }
+    util::write_ndjson(&out, &results);
+    util::summary(json!({"cases": cases.len(), "ok": ok, "err": err, "panics": panics}));
+}
+
+fn main() {
+    let a: Vec<String> = std::env::args().collect();
+    match a.get(1).map(|s| s.as_str()).unwrap_or("") {
+        "exec" => exec_main(),
+        _ => {
+            eprintln!("usage: vsem exec --in cases.ndjson --out results.ndjson [--partitions N] [--batch-rows N] [--set k=v]...");
+            std::process::exit(2);
+        }
+    }
+}
